@@ -54,6 +54,15 @@ def evaluate(x, val):
             return evaluate(x.args[0], val) and evaluate(x.args[1], val)
         if x.op == 'or':
             return evaluate(x.args[0], val) or evaluate(x.args[1], val)
+        if x.op == 'cmp' and any(isinstance(o, RF) and any(a.kind == 'app' and a.name == 'ite' for a in I.atoms_deep(o).values()) for o in x.args[1:3]):
+            # a comparison of gated scalars (e.g. the discriminant of a conditionally built Option): resolve the gates first
+            a_, b_ = evaluate(x.args[1], val), evaluate(x.args[2], val)
+            y = I.b_cmp(x.args[0], a_, b_)
+            if isinstance(y, I.B) and y.op == 'const':
+                return y.args[0]
+            if isinstance(y, bool):
+                return y
+            return val(y)
         return val(x)
     if isinstance(x, I.Ite):
         return evaluate(x.a if evaluate(x.c, val) else x.b, val)
